@@ -145,7 +145,8 @@ structure FinalizeOk (cfg : Cfg) (g : Geo) (pos : Int) (st : St) (f : Nat) (C : 
   le : st'.le = upd st.le f { st.le f with state := .loaded }
   an : st'.an = upd st.an f (finalAnchor (st.an f) (st.le f).size)
 
-structure FinalizeThrown (st : St) (C : List Int) (st' : St) : Prop where
+structure FinalizeThrown (g : Geo) (pos : Int) (st : St) (C : List Int) (st' : St) : Prop where
+  marked : ∀ x ∈ C, slotOk g pos x = true
   ls : st'.ls = markFinal st.ls C
   sl : st'.sl = st.sl
   free : st'.free = st.free
@@ -154,17 +155,17 @@ structure FinalizeThrown (st : St) (C : List Int) (st' : St) : Prop where
 
 theorem finalizeOrThrow_sat (cfg : Cfg) (g : Geo) (pos : Int) (st : St) (f : Nat) :
     Sat (finalizeOrThrow cfg g pos st f)
-      (fun res => ∃ C, (res.2 = true → FinalizeOk cfg g pos st f C res.1) ∧ (res.2 = false → FinalizeThrown st C res.1)) := by
+      (fun res => ∃ C, (res.2 = true → FinalizeOk cfg g pos st f C res.1) ∧ (res.2 = false → FinalizeThrown g pos st C res.1)) := by
   unfold finalizeOrThrow
   refine Sat.check (by decide) fun _ => ?_
   by_cases hz : (st.le f).size = 0
   · simp only [hz, if_true]
-    exact Sat.pure ⟨[], by simp, fun _ => ⟨(markFinal_nil _).symm, rfl, rfl, rfl, rfl⟩⟩
+    exact Sat.pure ⟨[], by simp, fun _ => ⟨by simp, (markFinal_nil _).symm, rfl, rfl, rfl, rfl⟩⟩
   · simp only [hz, if_false]
     refine Sat.bind (walk_sat cfg g pos f (st.le f).size (g.slots + 1) (st.an f).start 0 st [] (by simp) List.nodup_nil
       (by intro x hx; cases hx) (by simp)) ?_
     rintro ⟨st1, r⟩ ⟨C, hp⟩
-    have thrown : FinalizeThrown st C st1 := ⟨hp.ls, hp.sl, hp.free, hp.le, hp.an⟩
+    have thrown : FinalizeThrown g pos st C st1 := ⟨fun x hx => (hp.slots x hx).ok, hp.ls, hp.sl, hp.free, hp.le, hp.an⟩
     cases r with
     | none => exact Sat.pure ⟨C, by simp, fun _ => thrown⟩
     | some em =>
@@ -193,8 +194,11 @@ theorem finalizeOrThrow_sat (cfg : Cfg) (g : Geo) (pos : Int) (st : St) (f : Nat
               by_cases h0 : (st.an f).sfs = 0
               · exact Or.inl h0
               · exact Or.inr (hk h0)
-            · simp only [hp.le]
-            · simp only [hp.an, hp.le, finalAnchor]
+            · have e1 : st1.le = st.le := hp.le
+              simp only [e1]
+            · have e1 : st1.le = st.le := hp.le
+              have e2 : st1.an = st.an := hp.an
+              simp only [e1, e2, finalAnchor]
 
 /-- `finalizeOrFree`: either the entry became readable or it was freed -/
 structure FreedAfterWalk (g : Geo) (pos : Int) (st : St) (f : Nat) (C L : List Int) (st' : St) : Prop where
@@ -204,6 +208,7 @@ structure FreedAfterWalk (g : Geo) (pos : Int) (st : St) (f : Nat) (C L : List I
   ls : st'.ls = markFreed (markFinal st.ls C) L
   free : ∀ x, x ∈ st'.free ↔ x ∈ L ∨ x ∈ st.free
   ok : ∀ x ∈ L, slotOk g pos x = true
+  marked : ∀ x ∈ C, slotOk g pos x = true
 
 theorem more_markFinal (st : St) (C : List Int) (ls' : Int → LSlot) (h : ls' = markFinal st.ls C) :
     (fun x => (ls' x).more) = st.more := by
@@ -228,11 +233,12 @@ theorem finalizeOrFree_sat (cfg : Cfg) (g : Geo) (pos : Int) (st : St) (f : Nat)
       rw [this, ht.an]; exact hc
     refine Sat.mono (freeBadEntry_sat g pos st1 f L hc1 hlen) ?_
     intro st' h'
-    refine ⟨C, Or.inr ⟨?_, ?_, ?_, ?_, ?_, h'.ok⟩⟩
+    refine ⟨C, Or.inr ⟨?_, ?_, ?_, ?_, ?_, h'.ok, ?_⟩⟩
     · rw [h'.le, ht.le]
     · rw [h'.an, ht.an]
     · rw [h'.sl, ht.sl]
     · rw [h'.ls, ht.ls]
     · intro x; rw [h'.free x, ht.free]
+    · exact ht.marked
 
 end SquidModel.Rock
